@@ -125,6 +125,8 @@ type Server struct {
 	// OnConn, if set, takes over a connection entirely (used by the replication source).
 	Special func(s *Server, cn *ConnState, args [][]byte) (handled bool)
 	// ReplyDelay: simulated processing delay per command (ms), tape independent
+	// LogOnly: commands for which the model only records the call and answers +OK
+	LogOnly func(name string) bool
 	Role string // master | slave, for INFO replication
 	InfoReplication func() string
 	Conns []*ConnState
@@ -387,7 +389,7 @@ func (sv *Server) dispatch(cn *ConnState, args [][]byte) []byte {
 		return array(parts...)
 	}
 	if cn.Multi {
-		if !sv.known(name) && !sv.Lenient {
+		if !sv.known(name) && !sv.Lenient && !(sv.LogOnly != nil && sv.LogOnly(name)) {
 			cn.Dirty = true
 			return errReply(fmt.Sprintf("ERR unknown command `%s`", args[0]))
 		}
@@ -421,7 +423,12 @@ func (sv *Server) execute(cn *ConnState, args [][]byte, inExec bool) []byte {
 			return r
 		}
 	}
-	r := sv.run(cn, args)
+	var r []byte
+	if sv.LogOnly != nil && sv.LogOnly(strings.ToLower(string(args[0]))) {
+		r = status("OK")
+	} else {
+		r = sv.run(cn, args)
+	}
 	sv.logApplied(cn, args, inExec, r)
 	return r
 }
